@@ -55,6 +55,8 @@ def gen_tables(rng, profile):
     else:
         script = [rng.random() < 0.15 for _ in range(rng.randint(0, 6))]
     max_len = rng.choice([1, 2, 3, 5]) if (profile == "tracklist" and rng.random() < 0.5) else 10000
+    if profile == "restore" and rng.random() < 0.15:
+        max_len = rng.choice([2, 3, 5])   # sessions whose add() calls ran into the maximum length
     return kinds, lens, script, max_len
 
 
@@ -277,6 +279,67 @@ def generate_and_run(rng, profile, max_client_ops=None):
                     do(gen_op(rng, sim, weights))
                 if rng.random() < 0.5:
                     settle()
+        if profile == "schedule" and rng.random() < 0.15 and kinds.count("playable") >= 1:
+            # one whole random pass over playable entries, started at an arbitrary entry, with
+            # preloads that are abandoned before the stream switches (next / seek / stop+play /
+            # play(tlid) issued while the announcement is still pending): every entry is visited
+            # exactly once before the pass ends
+            good = [k for k in range(NTRACKS) if kinds[k] == "playable"]
+            used = len(runner.env.attempts)
+            orig = case["script"]
+            case["script"] = orig[:used] + [False] * max(0, used - len(orig))
+            runner.env.script = []
+            do(["clear"])
+            settle()
+            for which in (0, 2, 3):
+                if runner.trace[-1]["modes"][which]:
+                    do(["setmode", which, False])
+            if rng.random() < 0.25:
+                do(["setmode", 2, True])
+            do(["add", [rng.choice(good) for _ in range(rng.randint(2, 5))], None])
+            do(["setmode", 1, True])
+            do(["play", sim.some_tlid(rng, 1.0) if rng.random() < 0.8 else None])
+            settle()
+            for _ in range(2 * sim.n + 3):
+                r = rng.random()
+                if r < 0.35:
+                    do(["next"])
+                elif r < 0.65:
+                    do(["atf"])
+                elif r < 0.80:
+                    do(["atf"])
+                    do(rng.choice([["next"], ["next"], ["seek", 0], ["previous"]]))
+                elif r < 0.88:
+                    do(["atf"])
+                    do(["stop"])
+                    do(["play", None])
+                elif r < 0.94:
+                    do(["play", sim.some_tlid(rng, 1.0)])
+                else:
+                    do(["stop"])
+                    do(["play", None])
+                settle()
+                if rng.random() < 0.3:
+                    do(["eos"])
+                    settle()
+                if runner.trace[-1]["state"] == "stopped" and runner.trace[-1]["current"] is None:
+                    break
+        if profile == "settled" and rng.random() < 0.15 and sim.n >= 2:
+            # a change requested while paused, the player resumed, then a gapless change at the end
+            # of the track: the state reported afterwards has to follow the audio layer again
+            do(["play", sim.some_tlid(rng, 1.0)])
+            settle()
+            do(["pause"])
+            settle()
+            do(rng.choice([["next"], ["next"], ["previous"], ["play", sim.some_tlid(rng, 1.0)]]))
+            settle()
+            if rng.random() < 0.8:
+                do(["resume"])
+                settle()
+            for _ in range(rng.choice([1, 1, 2])):
+                do(["geteot"])
+                do(["atf"])
+                settle()
         if profile == "settledf" and kinds.count("playable") <= 2 and rng.random() < 0.6:
             # a lonely playable entry among dead ones, random + repeat: every pass has to come back
             # to it, however the order falls (the retry budget must cover the rest of this pass and
@@ -368,10 +431,22 @@ def generate_and_run(rng, profile, max_client_ops=None):
                 ln = runner.env.lengths[runner.env.index_of_uri(a.uri)]
                 if ln is not None and ln - a.pos > 0 and a.state == "playing":
                     do(["tick", ln - a.pos + rng.choice([0, 0, -1, 1])])
+            if a.uri is not None and rng.random() < 0.25:
+                # the position moves while the player is paused (seek), then the session is saved
+                ln = runner.env.lengths[runner.env.index_of_uri(a.uri)] or 3000
+                settle()
+                if a.state == "playing":
+                    do(["pause"])
+                    settle()
+                for _ in range(rng.choice([1, 1, 2])):
+                    do(["seek", rng.choice([0, 1, ln // 2, ln - 1, ln])])
+                    settle()
             cov = [True] * 5 if rng.random() < 0.6 else [rng.random() < 0.6 for _ in range(5)]
             do(["save"])
             do(["load", cov, True] if rng.random() < 0.15 else ["load", cov])   # third element: the file cannot be deleted
             settle()
+            if sim.n >= max_len and sim.tlids:
+                do(["remove", [rng.choice(sim.tlids)], None])   # make room: the restored list was full
             do(["add", [rng.randrange(NTRACKS) for _ in range(rng.randint(1, 3))], None])
             for _ in range(rng.randint(0, 4)):
                 do(gen_op(rng, sim, weights))
